@@ -17,8 +17,15 @@ THEOREMS = [
     "Measured.C01.step_preserves_inv",
     "Measured.C01.run_inv",
     "Measured.C01.dimension_history_independent",
-    "Measured.C01.shipped_histories_inv",
+    "Measured.C01.eval_dimension",
+    "Measured.Obligations.init_ginv",
+    "Measured.Obligations.shipped_histories_inv",
 ]
+QUICK = {"chunks": 4, "ops": 800}
+THOROUGH = {"chunks": 16, "ops": 6000}
+RULE = ("histories of public unit operations (mul/div/pow/root/as_ratio/quantify/prefix*unit/format '/'/"
+        "str/parse/convert) generated from one PRNG seed, operands biased to base units with derived "
+        "mixed-sign dimensions; a case is non-trivial when it interned a new unit or raised; distinct by op text")
 
 
 class Context(BaseContext):
